@@ -600,7 +600,12 @@ func (x *TopicsIndex) scanSubscribers(topic string, d int, n *particle, subs *Su
 	}
 
 	key, hasNext := isolateParticle(topic, d)
+	sysTopic := d == 0 && topic[0] == '$' // top level wildcards never match $ topics [MQTT-4.7.2-1]
 	for _, partKey := range []string{key, "+"} {
+		if sysTopic && partKey == "+" {
+			continue
+		}
+
 		if particle := n.particles.get(partKey); particle != nil { // [MQTT-3.3.2-3]
 			if hasNext {
 				x.scanSubscribers(topic, d+1, particle, subs)
@@ -609,16 +614,16 @@ func (x *TopicsIndex) scanSubscribers(topic string, d int, n *particle, subs *Su
 				x.gatherSharedSubscriptions(particle, subs)
 				x.gatherInlineSubscriptions(particle, subs)
 
-				if wild := particle.particles.get("#"); wild != nil && partKey != "+" {
+				if wild := particle.particles.get("#"); wild != nil {
 					x.gatherSubscriptions(topic, wild, subs) // also match any subs where filter/# is filter as per 4.7.1.2
 					x.gatherSharedSubscriptions(wild, subs)
-					x.gatherInlineSubscriptions(particle, subs)
+					x.gatherInlineSubscriptions(wild, subs)
 				}
 			}
 		}
 	}
 
-	if particle := n.particles.get("#"); particle != nil {
+	if particle := n.particles.get("#"); particle != nil && !sysTopic {
 		x.gatherSubscriptions(topic, particle, subs)
 		x.gatherSharedSubscriptions(particle, subs)
 		x.gatherInlineSubscriptions(particle, subs)
